@@ -14,9 +14,9 @@ static void body(void) {
   int noise = vx_choose("noise", 3);
   int fam = vx_choose("xfam", vx_thorough() ? 4 : 2);
   int n = SHAPES[si][0], p = SHAPES[si][1];
-  int nlv = 1 + vx_choose("nlv-1", p);
   int yv = vx_choose_dev("yvariant", 3);
   int xv = vx_choose_dev("xvariant", 4);
+  int nlv = 1 + vx_choose("nlv-1", p);               /* deepest choice: consecutive executions share the input (reference cache) */
   vx_require(!(yv == 1 && ny == 1));                 /* "correlated responses" needs two of them */
   vx_require(!(p == 1 && fam >= 2));                 /* one column: the spectral families coincide */
 
@@ -29,11 +29,14 @@ static void body(void) {
 #define KEY(oracle, fn, c) (snprintf(key, sizeof key, "%s|%s|%s", oracle, fn, c), key)
 
   /* conditioning of this instance, from the documented preprocessing, independent of the library */
-  rmat *Er = prep_ref(X_, n, p, xs), *Fr = prep_ref(Y_, n, ny, ys);
-  double kappa = (double)rm_cond2(Er);
-  ld gamma[PMAX]; ref_pls_gamma(Er, Fr, nlv, gamma);
+  static int ck[8] = {-9, 0, 0, 0, 0, 0, 0, 0}; static double kappa; static ld gamma[PMAX];   /* pure function of the key: caching is deterministic */
+  int kq[8] = {si, xs, ys, ny, noise, fam, yv, xv};
+  if (memcmp(ck, kq, sizeof ck) != 0) {
+    rmat *Er = prep_ref(X_, n, p, xs), *Fr = prep_ref(Y_, n, ny, ys);
+    kappa = (double)rm_cond2(Er); ref_pls_gamma(Er, Fr, p, gamma);
+    rm_free(Er); rm_free(Fr); memcpy(ck, kq, sizeof ck);
+  }
   double tolc = tol_cos(n, p, kappa, gamma, nlv);
-  rm_free(Er); rm_free(Fr);
   vx_require(tolc <= TOLC_CAP);                      /* latent variable well-posed (see C03_pls.h) */
 
   matrix *mx = hm_new(n, p, X_), *my = hm_new(n, ny, Y_);
@@ -42,7 +45,7 @@ static void body(void) {
   vx_tick_reset();
   PLS(mx, my, (size_t)nlv, xs, ys, m, NULL);
   vx_transition(1);
-  vx_log("C03 n=%d p=%d ny=%d nlv=%d xs=%d ys=%d noise=%d fam=%d xv=%d yv=%d kappa=%g tolc=%g gamma_min=%Lg\n", n, p, ny, nlv, xs, ys, noise, fam, xv, yv, kappa, tolc, (ld)(1e3 * DEPS * (n + p) * kappa / tolc));
+  vx_log("C03 n=%d p=%d ny=%d nlv=%d xs=%d ys=%d noise=%d fam=%d xv=%d yv=%d kappa=%g tolc=%g\n", n, p, ny, nlv, xs, ys, noise, fam, xv, yv, kappa, tolc);
 
   /* ---- shapes and finiteness */
   int A = nlv;
